@@ -1,9 +1,11 @@
-(* HuffGenDepth.v -- when can jpeg_gen_optimal_table hit JERR_HUFF_CLEN_OVERFLOW?
+(* HuffGenDepth.v -- can jpeg_gen_optimal_table hit JERR_HUFF_CLEN_OVERFLOW?
    Fibonacci lower bound on the total count needed for a given pure-Huffman
    code length: a symbol of code length c forces total >= fib (c + 2), because
-   the merge loop always joins the two SMALLEST live frequencies.  Hence with
-   total (including the pseudo symbol) below fib 35 = 9227465 no code length
-   exceeds MAX_CLEN = 32 and the ClenOverflow branch of gen_table_valid is dead. *)
+   the merge loop always joins the two SMALLEST live frequencies.
+   With MAX_CLEN = 64 an overflow needs c >= 65, i.e. total >= fib 67 =
+   44945570212853, far above the 10^9 limit: the ClenOverflow branch of
+   gen_table_valid is dead (gen_no_clen_overflow_64, gen_table_always_valid).
+   Below fib 35 = 9227465 every untruncated length is <= 32 (the old MAX_CLEN). *)
 From Coq Require Import List ZArith Lia Bool Permutation Arith.
 From LJT Require Import model.Huff proofs.HuffGenBase proofs.HuffGenProofs
   proofs.HuffGenProofs3 proofs.HuffGenProofs4.
@@ -36,6 +38,8 @@ Lemma fib_mono n m : (n <= m)%nat -> fib n <= fib m.
 Proof. induction 1 as [|m H IH]; [lia|]. pose proof (fib_le_S m). lia. Qed.
 
 Lemma fib_35 : fib 35 = 9227465.
+Proof. vm_compute. reflexivity. Qed.
+Lemma fib_67 : fib 67 = 44945570212853.
 Proof. vm_compute. reflexivity. Qed.
 
 Definition fibz (z : Z) : Z := fib (Z.to_nat z).
@@ -258,7 +262,8 @@ Proof.
   intros freq256 nz cs Hnn Hsum Hcnt E.
   set (a := firstn 256 freq256) in *.
   assert (Hnn' : forall f, In f a -> 0 <= f) by (intros f Hf; apply Hnn; eapply In_firstn; exact Hf).
-  unfold gen_codesizes in E. fold a in E. rewrite nz_scan_pseudo in E.
+  unfold gen_codesizes in E. change PSEUDO_SYM with 256%nat in E. change PSEUDO_COUNT with 1 in E.
+  fold a in E. rewrite nz_scan_pseudo in E.
   set (nzs := nz_scan a 0 ++ [(Z.of_nat (length a), 1)]) in *.
   set (n := length nzs) in *.
   assert (Ln : n = S (length (nz_scan a 0))).
@@ -286,26 +291,68 @@ Proof.
 Qed.
 
 (* ================================================================== MAIN *)
-Definition FIB_BOUND : Z := 9227465.   (* = fib 35 *)
+(* MAX_CLEN = 64: under the ORIGINAL hypotheses the overflow branch is impossible *)
+Theorem gen_no_clen_overflow_64 : forall freq256 : list Z,
+  (forall f, In f freq256 -> 0 <= f) ->
+  sumZ (firstn 256 freq256) + 1 <= SENT ->
+  (length (nz_scan (firstn 256 freq256) 0) <= 254)%nat ->
+  gen_optimal_table freq256 <> inl ClenOverflow.
+Proof.
+  intros freq256 Hnn Hs Hcnt E.
+  pose proof (gen_table_valid freq256 Hnn Hs Hcnt) as V. rewrite E in V.
+  destruct V as (cs & nz & EG & c & Hc & Hgt).
+  pose proof (gen_codesizes_fib freq256 nz cs Hnn Hs Hcnt EG c Hc) as Hb.
+  assert (fib 67 <= fibz (c + 2)) by (unfold fibz; apply fib_mono; lia).
+  rewrite fib_67 in H. unfold SENT in Hs. lia.
+Qed.
 
-Theorem gen_no_clen_overflow : forall freq256 : list Z,
+(* hence the generator ALWAYS returns a table with all the validity clauses *)
+Theorem gen_table_always_valid : forall freq256 : list Z,
+  (forall f, In f freq256 -> 0 <= f) ->
+  sumZ (firstn 256 freq256) + 1 <= SENT ->
+  (length (nz_scan (firstn 256 freq256) 0) <= 254)%nat ->
+  exists t, gen_optimal_table freq256 = inr t /\
+    good_table t (map fst (nz_scan (firstn 256 freq256) 0)) /\
+    valid_table t = true /\
+    (exists ct, make_c_derived (h_bits t) (h_vals t) 255 = Some ct) /\
+    (forall isDC, exists dt, make_d_derived (h_bits t) (h_vals t) isDC 255 = Some dt).
+Proof.
+  intros freq256 Hnn Hs Hcnt.
+  pose proof (gen_no_clen_overflow_64 freq256 Hnn Hs Hcnt) as NO.
+  pose proof (gen_table_valid freq256 Hnn Hs Hcnt) as V.
+  destruct (gen_optimal_table freq256) as [[| |]|t] eqn:E; try contradiction.
+  exists t. split; [reflexivity|].
+  destruct (gen_table_valid_table freq256 t Hnn Hs Hcnt E) as [G _].
+  destruct (gen_table_accepted freq256 t Hnn Hs Hcnt E) as (V1 & V2 & V3).
+  split; [exact G|]. split; [exact V1|]. split; [exact V2|exact V3].
+Qed.
+
+(* the old bound: below fib 35 every untruncated code length is <= 32 *)
+Theorem gen_codesizes_le_32 : forall freq256 nz cs,
+  (forall f, In f freq256 -> 0 <= f) ->
+  sumZ (firstn 256 freq256) + 1 < 9227465 ->
+  (length (nz_scan (firstn 256 freq256) 0) <= 254)%nat ->
+  gen_codesizes freq256 = inr (nz, cs) ->
+  forall c, In c cs -> c <= 32.
+Proof.
+  intros freq256 nz cs Hnn Hsum Hcnt EG c Hc.
+  assert (Hs : sumZ (firstn 256 freq256) + 1 <= SENT) by (unfold SENT; lia).
+  pose proof (gen_codesizes_fib freq256 nz cs Hnn Hs Hcnt EG c Hc) as Hb.
+  destruct (Z_le_gt_dec c 32) as [Hle|Hgt]; [exact Hle|exfalso].
+  assert (fib 35 <= fibz (c + 2)) by (unfold fibz; apply fib_mono; lia).
+  rewrite fib_35 in H. lia.
+Qed.
+
+Corollary gen_no_clen_overflow : forall freq256 : list Z,
   (forall f, In f freq256 -> 0 <= f) ->
   sumZ (firstn 256 freq256) + 1 < 9227465 ->
   (length (nz_scan (firstn 256 freq256) 0) <= 254)%nat ->
   gen_optimal_table freq256 <> inl ClenOverflow.
 Proof.
-  intros freq256 Hnn Hsum Hcnt E.
-  assert (Hs : sumZ (firstn 256 freq256) + 1 <= SENT) by (unfold SENT; lia).
-  pose proof (gen_table_valid freq256 Hnn Hs Hcnt) as V. rewrite E in V.
-  destruct V as (cs & nz & EG & c & Hc & Hgt).
-  pose proof (gen_codesizes_fib freq256 nz cs Hnn Hs Hcnt EG c Hc) as Hb.
-  assert (fib 35 <= fibz (c + 2)) by (unfold fibz; apply fib_mono; lia).
-  rewrite fib_35 in H. lia.
+  intros freq256 Hnn Hsum Hcnt. apply gen_no_clen_overflow_64; auto. unfold SENT; lia.
 Qed.
 
-(* under the Fibonacci bound the generator always returns a table, and the
-   table has all the validity clauses of gen_table_valid / gen_table_accepted *)
-Theorem gen_table_valid_small_total : forall freq256 : list Z,
+Corollary gen_table_valid_small_total : forall freq256 : list Z,
   (forall f, In f freq256 -> 0 <= f) ->
   sumZ (firstn 256 freq256) + 1 < 9227465 ->
   (length (nz_scan (firstn 256 freq256) 0) <= 254)%nat ->
@@ -315,32 +362,28 @@ Theorem gen_table_valid_small_total : forall freq256 : list Z,
     (exists ct, make_c_derived (h_bits t) (h_vals t) 255 = Some ct) /\
     (forall isDC, exists dt, make_d_derived (h_bits t) (h_vals t) isDC 255 = Some dt).
 Proof.
-  intros freq256 Hnn Hsum Hcnt.
-  assert (Hs : sumZ (firstn 256 freq256) + 1 <= SENT) by (unfold SENT; lia).
-  pose proof (gen_no_clen_overflow freq256 Hnn Hsum Hcnt) as NO.
-  pose proof (gen_table_valid freq256 Hnn Hs Hcnt) as V.
-  destruct (gen_optimal_table freq256) as [[| |]|t] eqn:E; try contradiction.
-  exists t. split; [reflexivity|].
-  destruct (gen_table_valid_table freq256 t Hnn Hs Hcnt E) as [G _].
-  destruct (gen_table_accepted freq256 t Hnn Hs Hcnt E) as (V1 & V2 & V3).
-  split; [exact G|]. split; [exact V1|]. split; [exact V2|exact V3].
+  intros freq256 Hnn Hsum Hcnt. apply gen_table_always_valid; auto. unfold SENT; lia.
 Qed.
 
 (* ============================================================== examples *)
-(* 33 Fibonacci counts 1,2,3,5,...: total 14930350 < 10^9, code length 33 *)
-Example gen_clen_overflow_33 :
+(* 33 Fibonacci counts 1,2,3,5,...: total 14930350 < 10^9, pure code length 33
+   (JERR_HUFF_CLEN_OVERFLOW with the old MAX_CLEN = 32; a table now) *)
+Example gen_depth_33_table :
   hyps (fibs 33 1 2) /\ sumZ (fibs 33 1 2) = 14930350 /\
-  gen_optimal_table (fibs 33 1 2) = inl ClenOverflow.
+  (exists nz cs, gen_codesizes (fibs 33 1 2) = inr (nz, cs) /\ In 33 cs) /\
+  exists t, gen_optimal_table (fibs 33 1 2) = inr t /\ valid_table t = true.
 Proof.
   split; [split; [apply all_nonneg; vm_compute; reflexivity|split; vm_compute; [discriminate|]]|].
   - repeat constructor.
-  - split; vm_compute; reflexivity.
+  - split; [vm_compute; reflexivity|]. split.
+    + eexists. eexists. split; [vm_compute; reflexivity|]. cbn. tauto.
+    + eexists. split; [vm_compute; reflexivity|vm_compute; reflexivity].
 Qed.
 
 (* 32 Fibonacci counts: total with the pseudo symbol 9227464 = fib 35 - 1 (the
-   largest total the theorem admits); longest pure code exactly MAX_CLEN = 32 *)
-Example gen_no_overflow_32 :
-  hyps (fibs 32 1 2) /\ sumZ (fibs 32 1 2) = 9227463 /\
+   largest total gen_codesizes_le_32 admits); longest pure code exactly 32 *)
+Example gen_depth_32_below_fib35 :
+  hyps (fibs 32 1 2) /\ sumZ (firstn 256 (fibs 32 1 2)) + 1 = 9227464 /\
   (exists nz cs, gen_codesizes (fibs 32 1 2) = inr (nz, cs) /\ In 32 cs) /\
   exists t, gen_optimal_table (fibs 32 1 2) = inr t.
 Proof.
@@ -351,24 +394,25 @@ Proof.
     + eexists. vm_compute. reflexivity.
 Qed.
 
-(* the bound 9227465 is exact: counts 1,1,2,3,...,fib 33 in DESCENDING order
-   plus the pseudo symbol total exactly 9227465 and do overflow *)
-Example gen_no_clen_overflow_sharp :
+(* the bound 9227465 of gen_codesizes_le_32 is exact: counts 1,1,2,3,...,fib 33
+   in DESCENDING order plus the pseudo symbol total exactly 9227465 and reach
+   code length 33 *)
+Example gen_codesizes_le_32_sharp :
   let h := rev (fibs 33 1 1) in
   hyps h /\ sumZ (firstn 256 h) + 1 = 9227465 /\
-  gen_optimal_table h = inl ClenOverflow.
+  exists nz cs, gen_codesizes h = inr (nz, cs) /\ In 33 cs.
 Proof.
   cbv zeta.
   split; [split; [apply all_nonneg; vm_compute; reflexivity|split; vm_compute; [discriminate|]]|].
   - repeat constructor.
-  - split; vm_compute; reflexivity.
+  - split; [vm_compute; reflexivity|].
+    eexists. eexists. split; [vm_compute; reflexivity|]. cbn. tauto.
 Qed.
 
-(* non-vacuity of gen_no_clen_overflow / gen_table_valid_small_total *)
-Example gen_small_total_nonvacuous :
-  (forall f, In f ex_hist -> 0 <= f) /\ sumZ (firstn 256 ex_hist) + 1 < 9227465 /\
-  (length (nz_scan (firstn 256 ex_hist) 0) <= 254)%nat.
+(* non-vacuity of gen_no_clen_overflow_64 / gen_table_always_valid: hyps ex_hist
+   is gen_table_valid_nonvacuous; the deepest admissible Fibonacci histogram is
+   gen_table_deepest_admissible (proofs/HuffGenProofs4.v) *)
+Example gen_always_valid_nonvacuous : hyps ex_hist /\ hyps (fibs 41 1 2).
 Proof.
-  split; [apply all_nonneg; vm_compute; reflexivity|]. split; vm_compute; [reflexivity|].
-  repeat constructor.
+  split; [exact (proj1 gen_table_valid_nonvacuous)|exact (proj1 gen_table_deepest_admissible)].
 Qed.
